@@ -289,8 +289,59 @@ class Invariants:
                         L2 = push_loop_len(self.c, an, strip_ref(t[3][fi]), lit_b[0] if lit_b else None)
                         if L2 is not None and _only_args(L2):
                             res = L2
+        if res is None and f is not None:
+            # a constructor that delegates: `fn new(n) -> Self { Self::from(vec![None; n]) }`
+            ft = self.ret_field_term(fnpath, field)
+            if ft is not None:
+                an = self.c.an(fnpath)
+                L = mk_len(strip_ref(ft), an)
+                if _only_args(L) and L != ("len", strip_ref(ft)):
+                    res = L
         self._ctor_len[key] = res
         return res
+
+    def ret_field_term(self, fnpath, field, depth=0):
+        """term over ('arg', k) of field `field` of the struct a crate function returns, through at most three delegating
+        calls (`new` -> `from` -> literal); None when unknown"""
+        if depth > 3:
+            return None
+        f = self.prog.fns.get(fnpath)
+        if f is None:
+            return None
+        an = self.c.an(fnpath)
+        cands = [t for (b, i), t in an.stmt_terms.items()
+                 if t[0] == "agg" and t[1] == "adt" and an.blocks[b]["stmts"][i]["place"]["local"] == 0
+                 and not an.blocks[b]["stmts"][i]["place"]["proj"]]
+        if len(cands) == 1:
+            t = cands[0]
+            S = t[2][0]
+            fi = self.field_index(S, field) if S in self.prog.adts else None
+            if fi is not None and _only_args(t[3][fi]):
+                return t[3][fi]
+            return None
+        if cands:
+            return None
+        rets = [ev for ev in an.events if ev["k"] == "call" and an.blocks[ev["b"]]["term"].get("dest") is not None
+                and an.blocks[ev["b"]]["term"]["dest"]["local"] == 0 and not an.blocks[ev["b"]]["term"]["dest"]["proj"]]
+        if len(rets) != 1 or rets[0]["fn"] is None:
+            return None
+        ev = rets[0]
+        fn = ev["fn"]
+        tgt = fn.get("resolved") if fn.get("resolved_local") else (fn["path"] if fn.get("local") and "trait" not in fn else None)
+        if tgt is None or tgt == fnpath:
+            return None
+        inner = self.ret_field_term(tgt, field, depth + 1)
+        if inner is None:
+            return None
+
+        def sub(t):
+            if isinstance(t, tuple) and t:
+                if t[0] == "arg" and len(t) == 2 and isinstance(t[1], int):
+                    return ev["args"][t[1] - 1] if 1 <= t[1] <= len(ev["args"]) else ("unk", None)
+                return tuple(sub(x) if isinstance(x, tuple) else x for x in t)
+            return t
+        out = sub(inner)
+        return out if _only_args(out) else None
 
     # -- worklists ------------------------------------------------------------
     def worklist_bound(self, S, W, path, F):
